@@ -216,7 +216,9 @@ theorem pRemoveFile_result (mu ml : FMap) (ds : List Str) (n : Str) (hds : ∀ c
         · cases he'
         · exact hwoarea k hk e' he')
     (by rw [hm1, if_neg hmne]; exact hnm)
-  refine ⟨_, ?_, ?_, ?_, ?_⟩
+  refine ⟨memPublish ((fillDirs m1 (chain [] (woDir :: ds))).insert
+      (marker (renderC (ds ++ [n]))) fileEntryNow) (marker (renderC (ds ++ [n]))) [],
+    ?_, ?_, ?_, ?_⟩
   · unfold pRemoveFile
     simp only [hv, hstep, andThen]
     exact hres
